@@ -188,7 +188,10 @@ def work(unit):
             if not orc.close(np.asarray(base[1], dtype=float), exp):
                 t.viol('agreement', 'counts_co_assignments', case, observed=base[1], expected=exp)
             for variant, tr in (('tens', lambda c: c * 10), ('zero_based', lambda c: c - 1),
-                                ('reversed', lambda c: c.max() + 1 - c), ('large', lambda c: c + 10 ** 6)):
+                                ('reversed', lambda c: c.max() + 1 - c), ('large', lambda c: c + 10 ** 6),
+                                ('int8_extremes', lambda c: ss.relabellings(c)['int8_extremes']),
+                                ('int64_extremes', lambda c: ss.relabellings(c)['int64_extremes']),
+                                ('float_close', lambda c: 1.0 + c * 1e-9)):
                 r = result(bct.agreement, np.array([tr(c) for c in combo]).T)
                 if not same_result(base, r):
                     t.viol('agreement', 'label_invariance', dict(case, relabelling=variant), observed=r[1],
